@@ -164,3 +164,25 @@ class LenOnly:
 
     def __repr__(self):
         return f"LenOnly({self.code})"
+
+
+class SeedModel(mesa.Model):
+    """reports values drawn from model.random AND model.rng: rows must not depend on the process that ran the model"""
+
+    def __init__(self, seed=None, rng=None, n=1):
+        if rng is not None:
+            super().__init__(rng=rng)
+        else:
+            super().__init__(seed=seed)
+        self.draw_r = self.random.random()
+        self.draw_g = float(self.rng.random())
+        self.datacollector = DataCollector(model_reporters={"r": "draw_r", "g": "draw_g", "i": lambda m: m.random.randint(0, 10 ** 6)})
+        for _ in range(n):
+            BAgent(self, 0)
+        self.datacollector.collect(self)
+
+    def step(self):
+        self.draw_r = self.random.random()
+        self.draw_g = float(self.rng.random())
+        self.agents.shuffle_do("step")
+        self.datacollector.collect(self)
